@@ -234,13 +234,24 @@ Hook(h, v) ==
     [] h = "label" -> IF v.k = "str" /\ v.t = "zoo.NString" THEN Ok([k |-> "str", t |-> "string", v |-> "n:" \o v.v]) ELSE Ok(v)
     [] h = "nildef" -> IF v.k \in {"nil", "nilptr"} THEN Ok([k |-> "str", t |-> "string", v |-> "dflt"]) ELSE Ok(v)
 
+RawStep(v, part, cfg) ==            \* one step of pointerstructure.Get, before the value transformation hook
+  LET d == DerefAll(v) IN
+  CASE d.k = "map" -> GetMap(d, part)
+    [] d.k = "list" -> GetList(d, part)
+    [] d.k = "struct" -> GetStruct(d, part, cfg.tag)
+    [] OTHER -> Er
 GetStep(v, part, cfg) ==
-  LET d == DerefAll(v)
-      r == CASE d.k = "map" -> GetMap(d, part)
-             [] d.k = "list" -> GetList(d, part)
-             [] d.k = "struct" -> GetStruct(d, part, cfg.tag)
-             [] OTHER -> Er
-  IN IF r.r # "ok" THEN r ELSE Hook(cfg.hook, r.v)
+  LET r == RawStep(v, part, cfg) IN IF r.r # "ok" THEN r ELSE Hook(cfg.hook, r.v)
+
+\* what a value transformation hook is handed, in call order (the hook runs after every successful step, on the value as found):
+\* the kind of each value (+ length of containers, text of strings) - the resolve events of one Get
+Digest(v) == IF v.k \in {"list", "map"} THEN v.k \o ToString(Len(v.v)) ELSE IF v.k = "str" THEN "str:" \o v.v ELSE v.k
+RECURSIVE GetTr(_, _, _, _)
+GetTr(v, path, i, cfg) ==
+  IF i > Len(path) THEN <<>>
+  ELSE LET r == RawStep(v, path[i], cfg) IN
+    IF r.r # "ok" THEN <<>>
+    ELSE <<Digest(r.v)>> \o (LET h == Hook(cfg.hook, r.v) IN IF h.r # "ok" THEN <<>> ELSE GetTr(h.v, path, i + 1, cfg))
 
 RECURSIVE Get(_, _, _, _)
 Get(v, path, i, cfg) ==
@@ -274,6 +285,15 @@ Resolve(d, path, env, cfg) ==
     ELSE IF cfg.unknown.k # "none" THEN Ok(cfg.unknown)
     ELSE IF ParentIsMap(d, w.path, cfg) THEN [r |-> "absent"]
     ELSE Er
+
+\* the hook calls made while resolving a selector (getValue): the walk itself and, when it ends with "not found" and no unknown
+\* value is configured, the walk to the parent again (evaluateNotPresent asks whether the parent is a map)
+ResolveTr(d, path, env, cfg) ==
+  LET w == IF Len(path) = 0 THEN [r |-> "path", path |-> path] ELSE Rewrite(path, env, Len(env)) IN
+  IF w.r \in {"err", "val"} THEN <<>>
+  ELSE LET g == Get(d, w.path, 1, cfg)
+           t == GetTr(d, w.path, 1, cfg)
+       IN IF g.r \in {"ok", "unm", "err"} \/ cfg.unknown.k # "none" \/ Len(w.path) < 2 THEN t ELSE t \o t
 
 ---------------------------------------------------------------------------
 (* expressions *)
